@@ -68,7 +68,11 @@ def oracle(progs_spec, got):
             seen[b] += k
             continue
         seen[b] = k
-        if k != n:
+        pieces = [kk for bb, kk in runs if bb == b]
+        if len(pieces) > 1:
+            fail = fail or (('interleaved' if sum(pieces) <= n else 'duplicated'),
+                            'message (thread %d, #%d, %d bytes) is on the wire in %d separate pieces %r: other bytes in between' % (t, i, n, len(pieces), pieces[:6]))
+        elif k != n:
             fail = fail or (('truncated' if k < n else 'duplicated'), 'message (thread %d, #%d) has %d bytes on the wire, pushed %d' % (t, i, k, n))
         # empty messages of this thread that precede it are invisible: schedule them just before
         while nxt[t] < i and progs_spec[t][nxt[t]] == 0:
@@ -90,17 +94,30 @@ def oracle(progs_spec, got):
     return fail, sched, runs
 
 
-def g_case(kind, bufsize, progs_spec, sched, runs):
+def g_wire(md, direct, progs, sched, pattern, flush, big, runs):
+    """progs: per thread [(byte value, length)]"""
+    return 'check_wire_z %s [%s] %s [%s] [%s] %d %d [%s]' % (
+        md, '; '.join('%d%%nat' % t for t in direct),
+        '[' + '; '.join('[' + '; '.join('(%d, %d)' % x for x in p) + ']' for p in progs) + ']',
+        '; '.join('%d%%nat' % t for t in sched), '; '.join(str(k) for k in pattern), flush, big,
+        '; '.join('(%d, %d)' % (b, k) for b, k in runs))
+
+
+def g_case(kind, bufsize, progs_spec, sched, runs, pattern=(), direct=None):
+    """asyncio: application threads hand off to the loop (direct = []); twisted: every thread schedules directly"""
     md = '(Chunked (Z.to_nat %d))' % bufsize if kind == 'asyncio' else 'Whole'
-    progs = '[' + '; '.join('[' + '; '.join('(%d, %d)' % (tag(t, i), n) for i, n in enumerate(p)) + ']' for t, p in enumerate(progs_spec)) + ']'
-    maxchunks = sum((n // max(bufsize, 1)) + 2 for p in progs_spec for n in p)
-    return 'check_wire_z %s %s [%s] %d [%s]' % (md, progs, '; '.join('%d%%nat' % t for t in sched), maxchunks,
-                                               '; '.join('(%d, %d)' % (b, k) for b, k in runs))
+    if direct is None:
+        direct = [] if kind == 'asyncio' else list(range(len(progs_spec)))
+    progs = [[(tag(t, i), n) for i, n in enumerate(p)] for t, p in enumerate(progs_spec)]
+    nchunks = sum((n // max(bufsize, 1)) + 2 for p in progs_spec for n in p)
+    big = (bufsize if kind == 'asyncio' else max([n for p in progs_spec for n in p] + [1])) + 1
+    return g_wire(md, direct, progs, sched, pattern, nchunks, big, runs)
 
 
 PRELUDE = '''
-Definition check_wire_z (md : mode) (p : list (list (Z * Z))) (sched : list nat) (maxchunks : Z) (received : list (Z * Z)) : bool :=
-  check_wire md (map (map (fun d : Z * Z => (fst d, Z.to_nat (snd d)))) p) sched (Z.to_nat maxchunks) received.
+Definition check_wire_z (md : mode) (direct : list nat) (p : list (list (Z * Z))) (sched : list nat) (pattern : list Z) (flush big : Z)
+           (received : list (Z * Z)) : bool :=
+  check_wire md direct (map (map (fun d : Z * Z => (fst d, Z.to_nat (snd d)))) p) sched (map Z.to_nat pattern) (Z.to_nat flush) (Z.to_nat big) received.
 Definition chunk_lengths_z (n len : Z) : option (list Z) :=
   match chunk_lengths (Z.to_nat n) (Z.to_nat len) with Some l => Some (map Z.of_nat l) | None => None end.
 Definition optlist_eqb (a : option (list Z)) (b : list Z) : bool :=
@@ -167,6 +184,57 @@ def observed_chunks(P, sizes, bufsize):
         b.close()
 
 
+def callback_pushes(ctx, P, cases, meta, dead):
+    """pushes made ON the event-loop thread (response callbacks: handshake steps, retries, set-keyspace, next page) mixed
+    with pushes of an application thread.
+    asyncio: the loop-thread branch of push() (create_task) against a _push_msg task of a many-chunk message, the loop held
+    while both are scheduled, the loop-thread push deferred by 0..3 loop iterations.
+    twisted: thread A pushes m1 while the reactor is busy, then m2 while the reactor thread is inside handle_read() running a
+    response callback (which pushes m3 itself)."""
+    reported = set()
+
+    def report(kind, fail, spec, case, runs, nbytes):
+        key = '%s.callback-push.%s' % (kind, fail[0])
+        if key not in reported:
+            reported.add(key)
+            ctx.violation(key, '%s reactor, pushes from the event-loop thread mixed with an application thread: %s; %r' % (kind, fail[1], case),
+                          case=case, expected='every pushed message whole, once, per-thread order', actual={'received_runs': runs[:40], 'bytes': nbytes},
+                          theorem='C11_order', kind='interleaving')
+    if 'asyncio' not in dead:
+        plans = [(8, 400, 5, 7), (8, 257, 0, 9), (16, 1000, 16, 1)]
+        if ctx.tier == 'thorough':
+            plans += [(8, 8 * 32, 3, 3), (8, 8 * 33, 3, 3), (8, 8 * 64 + 1, 8, 8), (4096, 4096 * 33 + 5, 100, 10)]
+        for bufsize, big, small, lsize in plans:
+            for depth in (0, 1, 2, 3):
+                spec = [[big, small], [lsize]]                       # thread 0 = application thread, thread 1 = the loop thread
+                msgs = build(spec)
+                got = P.run_asyncio_loop_pushes(msgs[0], [(msgs[1][0], depth)], bufsize)
+                fail, sched, runs = oracle(spec, got)
+                case = {'callback_push': 'asyncio', 'bufsize': bufsize, 'progs': spec, 'depth': depth}
+                ctx.case(['asyncio-loop-push', bufsize, spec, depth, sched], nontrivial=True,
+                         sample=dict(case, arrival_order_threads=sched) if depth == 1 else None)
+                ctx.count('reactor', 'asyncio-loop-thread-push')
+                if fail:
+                    report('asyncio', fail, spec, case, runs, len(got))
+                cases.append(g_case('asyncio', bufsize, spec, sched, runs, direct=[1]))
+                meta.append(('asyncio-loop-push', bufsize, spec, bool(fail)))
+    if 'twisted' not in dead:
+        for l1, l2, l3 in ((10, 20, 5), (5000, 3, 0), (1, 1, 1)) + (((4097, 4096, 9000),) if ctx.tier == 'thorough' else ()):
+            spec = [[l1, l2], [l3]] if l3 else [[l1, l2], []]
+            msgs = build(spec)
+            got, entered = P.run_twisted_read_pushes(msgs[0][0], msgs[0][1], msgs[1][0] if l3 else None)
+            fail, sched, runs = oracle(spec, got)
+            if not entered and not fail:
+                fail = ('callback-not-run', 'handle_read() did not deliver the response to its callback')
+            case = {'callback_push': 'twisted', 'progs': spec}
+            ctx.case(['twisted-read-push', spec, sched], nontrivial=True, sample=dict(case, arrival_order_threads=sched) if l3 == 5 else None)
+            ctx.count('reactor', 'twisted-push-during-handle_read')
+            if fail:
+                report('twisted', fail, spec, case, runs, len(got))
+            cases.append(g_case('twisted', 4096, spec, sched, runs))
+            meta.append(('twisted-read-push', 4096, spec, bool(fail)))
+
+
 def send_path(ctx, cases, meta):
     """protocol v5: what reaches push() is assembled by Connection.send_msg, which application threads call concurrently
     WITHOUT a lock.  Real send_msg of real QueryMessages on a checksumming connection, two threads switched line by line
@@ -202,10 +270,8 @@ def send_path(ctx, cases, meta):
             # model: each send_msg is one push of the message's bytes; the pushed order is the schedule witness
             order = [S.decode_stream(b, version)[0][0] for b in pushed]
             progs = [[(S.sid(t, i), len(ref[S.sid(t, i)])) for i in range(len(p))] for t, p in enumerate(spec)]
-            g = 'check_wire_z Whole %s [%s] %d [%s]' % (
-                '[' + '; '.join('[' + '; '.join('(%d, %d)' % x for x in p) + ']' for p in progs) + ']',
-                '; '.join('%d%%nat' % ((o - 1) // 16) for o in order), 2 * len(order) + 2,
-                '; '.join('(%d, %d)' % (o, len(ref[o])) for o in order))
+            g = g_wire('Whole', list(range(len(spec))), progs, [(o - 1) // 16 for o in order], (), 2 * len(order) + 2,
+                       max(len(v) for v in ref.values()) + 1, [(o, len(ref[o])) for o in order])
             if g not in cases:
                 cases.append(g)
                 meta.append(('send_msg-v%d' % version, 0, spec, False))
@@ -227,7 +293,14 @@ def run(ctx):
             if kind in dead:
                 continue
             progs = build(spec)
-            got, errs = P.run_pushes(kind, progs, out_buffer_size=bufsize, timeout=3.0)
+            # asyncio: two cases out of three run with a socket that accepts only part of what it is given (back-pressure)
+            partial, sendlog = None, []
+            if kind == 'asyncio' and ctx.rng.random() < 0.67:
+                partial = [ctx.rng.choice([None, None, 0, 1, 2, 3, 5, bufsize - 1, bufsize // 2 + 1]) for _ in range(ctx.rng.randint(2, 7))]
+                if all(k == 0 for k in partial):
+                    partial.append(None)
+            got, errs = P.run_pushes(kind, progs, out_buffer_size=bufsize, timeout=3.0, partial=partial, log=sendlog)
+            ctx.count('asyncio_socket', 'partial-sends' if partial else 'accepts-all') if kind == 'asyncio' else None
             fail, sched, runs = oracle(spec, got)
             nthreads = len(spec)
             big = any(n > bufsize for p in spec for n in p)
@@ -261,10 +334,11 @@ def run(ctx):
                         cause = ' (probe failed: %r)' % (e,)
                     dead.add(kind)       # every further case would only wait for its timeout
                 ctx.violation('%s.%s' % (kind, fail[0]), '%s reactor: %s%s; threads push %r with out_buffer_size=%d' % (kind, fail[1], cause, spec, bufsize),
-                              case={'reactor': kind, 'bufsize': bufsize, 'progs': spec}, expected='every pushed message whole, once, per-thread order',
+                              case={'reactor': kind, 'bufsize': bufsize, 'progs': spec, 'partial': partial}, expected='every pushed message whole, once, per-thread order',
                               actual={'received_runs': runs[:40], 'bytes': len(got)}, theorem='C11_order', kind='interleaving')
-            cases.append(g_case(kind, bufsize, spec, sched, runs))
+            cases.append(g_case(kind, bufsize, spec, sched, runs, pattern=sendlog[:400]))
             meta.append((kind, bufsize, spec, bool(fail)))
+        callback_pushes(ctx, P, cases, meta, dead)
         send_path(ctx, cases, meta)
         # chunk lists of the real push() vs the model's chunks
         chunk_cases, chunk_meta = [], []
@@ -301,13 +375,28 @@ def run(ctx):
         ctx.proof_broken.append(('correspondence:Push', str(e)[-800:]))
     ctx.trust('harness lib/vf/push_impl.py: socketpair, reader, thread start barrier, twisted transport stub doing sendall; '
               'schedule witness read off the received stream (unique byte value per message)')
-    ctx.assume('loop.call_soon_threadsafe / reactor.callFromThread run callbacks in the order they were scheduled (FIFO)',
+    ctx.assume('the event loop runs its ready entries (threadsafe callbacks, task steps, callFromThread calls) in FIFO order',
                'a coroutine with no await between its put_nowait calls runs as one event-loop step',
-               'sock_sendall / transport.write deliver the whole chunk, in call order')
+               'a thread uses one scheduling mechanism only (asyncio: loop thread = create_task, other threads = run_coroutine_threadsafe)',
+               'the writer resumes the unsent rest of a chunk (loop.sock_sendall; twisted transport buffer)')
 
 
 def replay(ctx, rp):
     case = rp.get('case') or ({'reactor': rp['reactor'], 'bufsize': rp['bufsize'], 'progs': rp['progs']} if 'progs' in rp else {})   # replay file or corpus file
+    if case.get('callback_push'):
+        from vf import push_impl as P
+        try:
+            msgs = build(case['progs'])
+            if case['callback_push'] == 'asyncio':
+                got = P.run_asyncio_loop_pushes(msgs[0], [(msgs[1][0], case['depth'])], case['bufsize'])
+            else:
+                got, _ok = P.run_twisted_read_pushes(msgs[0][0], msgs[0][1], msgs[1][0] if msgs[1] else None)
+        finally:
+            P.shutdown()
+        fail, sched, runs = oracle(case['progs'], got)
+        print('replay %r -> %d bytes, runs %r; %s' % (case, len(got), runs[:12], fail))
+        print(('VIOLATION property=C11 replay=%s' % ctx.replay_path) if fail else 'not reproduced')
+        return 1 if fail else 0
     if case.get('send_path'):
         from vf import push_send as S
         ref = S.reference(case['spec'], case['version'])
@@ -323,7 +412,7 @@ def replay(ctx, rp):
     bad = None
     try:
         for _ in range(5):
-            got, errs = P.run_pushes(case['reactor'], build(case['progs']), out_buffer_size=case['bufsize'], timeout=3.0)
+            got, errs = P.run_pushes(case['reactor'], build(case['progs']), out_buffer_size=case['bufsize'], timeout=3.0, partial=case.get('partial'))
             fail, sched, runs = oracle(case['progs'], got)
             print('replay %s bufsize=%d %r -> %d bytes, runs %r %s' % (case['reactor'], case['bufsize'], case['progs'], len(got), runs[:20], errs[:1]))
             if fail or errs:
